@@ -1,1 +1,186 @@
-/- property theorems of C19 (only theorems + non-vacuity examples live here) -/
+import Got.Model.Aes
+import Got.Lemmas.Aes
+/-
+C19 — aesx: Decrypt inverts Encrypt, the output is the standard AES-CBC(PKCS#7)/CFB-128 construction,
+the caller's memory is untouched.  (only the property theorems + non-vacuity examples live here)
+
+All theorems are about `Got.Model.Aes` (slice-level transcription of aesx/*.go over a store of backing
+arrays) and hold for EVERY block function pair `E`/`D` on 16-byte blocks with `D ∘ E = id` — in
+particular for AES with any key of 16/24/32 bytes; AES itself is not modelled in the theorems.
+`Got.Spec.Aes.cbcEncrypt/cfbEncrypt/pkcs7` are the textbook definitions (SP 800-38A, PKCS#7).
+-/
+open Got.Model.Aes Got.Lemmas.Aes
+open Got.Spec.Aes (Byte pkcs7)
+
+/-- pkcs5Trimming undoes pkcs5Padding, for every input slice (any offset, any spare capacity) and every
+    block size 1..255 (aesx uses 16). -/
+theorem C19_unpad_pad (st : Store) (p : Slice) (hv : p.valid st) (bs : Nat) (h0 : 0 < bs) (h1 : bs ≤ 255) :
+    (pkcs5Trimming (pkcs5Padding st p bs).1 (pkcs5Padding st p bs).2).bytes (pkcs5Padding st p bs).1 = p.bytes st := by
+  obtain ⟨hb, _, _, hcap⟩ := pkcs5Padding_spec st p bs hv
+  rw [(pkcs5Trimming_bytes _ _ hcap).1, hb, trimV_pkcs7 bs h0 h1]
+
+/-- CBC: for every block permutation (E with left inverse D on 16-byte blocks), every 16-byte IV and every
+    plaintext slice, Encrypt succeeds, and Decrypt of ANY slice holding the ciphertext bytes (in any store:
+    the returned slice itself, or a copy placed anywhere) succeeds and returns exactly the plaintext. -/
+theorem C19_cbc_roundtrip (E D : BlockFn)
+    (hE : ∀ b : List Byte, b.length = 16 → (E b).length = 16) (hD : ∀ b : List Byte, b.length = 16 → D (E b) = b)
+    (iv : List Byte) (hiv : iv.length = 16) (st : Store) (p : Slice) (hv : p.valid st) :
+    ∃ st1 ct, cbcEncrypt E iv st p = .ok (st1, ct) ∧ ct.valid st1 ∧
+      ∀ (st2 : Store) (c : Slice), c.valid st2 → c.bytes st2 = ct.bytes st1 →
+        ∃ st3 out, cbcDecrypt D iv st2 c = .ok (st3, out) ∧ out.bytes st3 = p.bytes st := by
+  obtain ⟨st1, ct, he, hb, hval, hlen⟩ := cbcEncrypt_spec E hE iv hiv st p hv
+  refine ⟨st1, ct, he, hval, ?_⟩
+  intro st2 c hc hcb
+  have hpl : (p.bytes st).length = p.len := bytes_length st p (by have := hv.2.1; have := hv.2.2; omega)
+  have hpm : (pkcs7 16 (p.bytes st)).length % 16 = 0 := by rw [pkcs7_length, hpl]; omega
+  have hcl : (c.bytes st2).length = c.len := bytes_length st2 c (by have := hc.2.1; have := hc.2.2; omega)
+  have hctl : (ct.bytes st1).length = ct.len := bytes_length st1 ct (by have := hval.2.1; have := hval.2.2; omega)
+  have hrt := cbc_roundtrip E D hE hD iv _ hiv hpm
+  have hclen : c.len = (pkcs7 16 (p.bytes st)).length := by
+    rw [← hcl, hcb, hb, cbcEncrypt_length E hE iv _ hiv hpm]
+  obtain ⟨st3, out, hd, hob⟩ := cbcDecrypt_spec D iv hiv st2 c hc (by omega) (by rw [hcb, hb, hrt]; omega)
+  refine ⟨st3, out, hd, ?_⟩
+  rw [hob, hcb, hb, hrt, trimV_pkcs7 16 (by omega) (by omega)]
+
+/-- CFB: the same for ANY block function E with 16-byte outputs (no inverse needed: CFB uses E both ways). -/
+theorem C19_cfb_roundtrip (E : BlockFn) (hE : ∀ b : List Byte, b.length = 16 → (E b).length = 16)
+    (iv : List Byte) (hiv : iv.length = 16) (st : Store) (p : Slice) (hv : p.valid st) :
+    ∃ st1 ct, cfbEncrypt E iv st p = .ok (st1, ct) ∧ ct.valid st1 ∧
+      ∀ (st2 : Store) (c : Slice), c.valid st2 → c.bytes st2 = ct.bytes st1 →
+        ∃ st3 out, cfbDecrypt E iv st2 c = .ok (st3, out) ∧ out.bytes st3 = p.bytes st := by
+  obtain ⟨st1, ct, he, hb, hval, hlen⟩ := cfbEncrypt_spec E hE iv hiv st p hv
+  refine ⟨st1, ct, he, hval, ?_⟩
+  intro st2 c hc hcb
+  have hpl : (p.bytes st).length = p.len := bytes_length st p (by have := hv.2.1; have := hv.2.2; omega)
+  have hcl : (c.bytes st2).length = c.len := bytes_length st2 c (by have := hc.2.1; have := hc.2.2; omega)
+  have hrt := cfb_roundtrip E hE iv (p.bytes st) hiv
+  have hclen : c.len = p.len := by rw [← hcl, hcb, hb, cfbEncrypt_length E hE iv _ hiv, hpl]
+  obtain ⟨st3, out, hd, hob⟩ := cfbDecrypt_spec E iv hiv st2 c hc (by rw [hcb, hb, hrt]; omega)
+  exact ⟨st3, out, hd, by rw [hob, hcb, hb, hrt]⟩
+
+/-- CBC Encrypt is the standard construction: CBC_E,iv(PKCS#7-pad(p)), of length 16·(|p|/16 + 1). -/
+theorem C19_is_standard_cbc (E : BlockFn) (hE : ∀ b : List Byte, b.length = 16 → (E b).length = 16)
+    (iv : List Byte) (hiv : iv.length = 16) (st : Store) (p : Slice) (hv : p.valid st) :
+    ∃ st1 ct, cbcEncrypt E iv st p = .ok (st1, ct) ∧
+      ct.bytes st1 = Got.Spec.Aes.cbcEncrypt E iv (pkcs7 16 (p.bytes st)) ∧
+      (ct.bytes st1).length = 16 * (p.len / 16 + 1) := by
+  obtain ⟨st1, ct, he, hb, hval, hlen⟩ := cbcEncrypt_spec E hE iv hiv st p hv
+  refine ⟨st1, ct, he, hb, ?_⟩
+  rw [bytes_length st1 ct (by have := hval.2.1; have := hval.2.2; omega), hlen]
+
+/-- CFB Encrypt is CFB-128_E,iv(p), of the same length as p. -/
+theorem C19_is_standard_cfb (E : BlockFn) (hE : ∀ b : List Byte, b.length = 16 → (E b).length = 16)
+    (iv : List Byte) (hiv : iv.length = 16) (st : Store) (p : Slice) (hv : p.valid st) :
+    ∃ st1 ct, cfbEncrypt E iv st p = .ok (st1, ct) ∧
+      ct.bytes st1 = Got.Spec.Aes.cfbEncrypt E iv (p.bytes st) ∧ (ct.bytes st1).length = p.len := by
+  obtain ⟨st1, ct, he, hb, hval, hlen⟩ := cfbEncrypt_spec E hE iv hiv st p hv
+  refine ⟨st1, ct, he, hb, ?_⟩
+  rw [bytes_length st1 ct (by have := hval.2.1; have := hval.2.2; omega), hlen]
+
+/-- Neither Encrypt nor Decrypt, in either mode, for ANY block functions, IV, store and input slice (valid or
+    not), changes a single byte of any backing array that existed before the call — the caller's array
+    including the bytes beyond `len` up to `cap` and beyond — and the returned slice never aliases one. -/
+theorem C19_input_untouched (c : Cipher) (E D : BlockFn) (st : Store) (input : Slice) :
+    (∀ st' out, c.encrypt E st input = .ok (st', out) →
+        (∀ i, i < st.length → st'.arr i = st.arr i) ∧ st.length ≤ out.id) ∧
+    (∀ st' out, c.decrypt E D st input = .ok (st', out) →
+        (∀ i, i < st.length → st'.arr i = st.arr i) ∧ st.length ≤ out.id) := by
+  have key : ∀ r : Except Panic (Store × Slice), Untouched st r →
+      ∀ st' out, r = .ok (st', out) → (∀ i, i < st.length → st'.arr i = st.arr i) ∧ st.length ≤ out.id := by
+    intro r h st' out he
+    subst he
+    exact ⟨h.1.2, h.2⟩
+  constructor
+  · unfold Cipher.encrypt
+    cases c.mode
+    · exact key _ (cbcEncrypt_untouched E c.iv st input)
+    · exact key _ (cfbEncrypt_untouched E c.iv st input)
+  · unfold Cipher.decrypt
+    cases c.mode
+    · exact key _ (cbcDecrypt_untouched D c.iv st input)
+    · exact key _ (cfbDecrypt_untouched E c.iv st input)
+
+/-- The OLD padding (`append(ciphertext, padText...)`, before fix 9d098d6) did write into the caller's spare
+    capacity: a 5-byte slice of a 32-byte array filled with 0xEE; after Encrypt bytes 5..15 are 0x0b. -/
+theorem C19_old_padding_counterexample :
+    (match cbcEncryptOld id commonIV [[1, 2, 3, 4, 5] ++ List.replicate 27 0xEE] ⟨0, 0, 5, 32⟩ with
+      | .ok (st', _) => st'.arr 0
+      | .error _ => []) = [1, 2, 3, 4, 5] ++ List.replicate 11 0x0b ++ List.replicate 16 0xEE := by
+  decide
+
+/-- the same call with the CURRENT padding leaves the array as it was (instance of C19_input_untouched) -/
+theorem C19_new_padding_same_input :
+    (match cbcEncrypt id commonIV [[1, 2, 3, 4, 5] ++ List.replicate 27 0xEE] ⟨0, 0, 5, 32⟩ with
+      | .ok (st', _) => st'.arr 0
+      | .error _ => []) = [1, 2, 3, 4, 5] ++ List.replicate 27 0xEE := by
+  decide
+
+/-- Encrypt's output bytes depend only on (E, iv, input bytes): not on the store, the offset, the capacity, nor on
+    anything a previous call did — Encrypt/Decrypt keep no state, which is what makes one cipher object give
+    the same answers to concurrent callers (model-level statement; see the concurrent differential run). -/
+theorem C19_output_depends_only_on_input_bytes (c : Cipher) (E : BlockFn)
+    (hE : ∀ b : List Byte, b.length = 16 → (E b).length = 16) (hiv : c.iv.length = 16)
+    (st st' : Store) (p p' : Slice) (hv : p.valid st) (hv' : p'.valid st') (hb : p.bytes st = p'.bytes st') :
+    ∃ s1 o1 s2 o2, c.encrypt E st p = .ok (s1, o1) ∧ c.encrypt E st' p' = .ok (s2, o2) ∧ o1.bytes s1 = o2.bytes s2 := by
+  unfold Cipher.encrypt
+  cases c.mode
+  · obtain ⟨s1, o1, h1, b1, _⟩ := cbcEncrypt_spec E hE c.iv hiv st p hv
+    obtain ⟨s2, o2, h2, b2, _⟩ := cbcEncrypt_spec E hE c.iv hiv st' p' hv'
+    exact ⟨s1, o1, s2, o2, h1, h2, by rw [b1, b2, hb]⟩
+  · obtain ⟨s1, o1, h1, b1, _⟩ := cfbEncrypt_spec E hE c.iv hiv st p hv
+    obtain ⟨s2, o2, h2, b2, _⟩ := cfbEncrypt_spec E hE c.iv hiv st' p' hv'
+    exact ⟨s1, o1, s2, o2, h1, h2, by rw [b1, b2, hb]⟩
+
+/-! ### NewCipher: mode and IV selection -/
+
+/-- no options: CBC with commonIV = 00 01 .. 0f -/
+theorem C19_default_options (key : List Byte) (hk : key.length = 16 ∨ key.length = 24 ∨ key.length = 32) :
+    newCipher key [] = .ok { mode := .cbc, iv := (List.range 16).map UInt8.ofNat } := by
+  simp only [newCipher, hk, if_true]; rfl
+
+/-- the last mode option wins -/
+theorem C19_last_mode_option_wins (opts : List Opt) :
+    modeOf (selectArgs (opts ++ [.withCFB])) = .cfb ∧ modeOf (selectArgs (opts ++ [.withCBC])) = .cbc := by
+  simp only [selectArgs, List.foldl_append, List.foldl_cons, List.foldl_nil, applyOpt, modeOf]
+  exact ⟨by simp, by decide⟩
+
+/-- WithInitialVector(iv) with a non-empty iv sets the IV; with an empty one it is ignored -/
+theorem C19_iv_option (opts : List Opt) (iv : List Byte) :
+    (iv ≠ [] → (selectArgs (opts ++ [.withInitialVector iv])).initialVector = iv) ∧
+    selectArgs (opts ++ [.withInitialVector []]) = selectArgs opts := by
+  simp only [selectArgs, List.foldl_append, List.foldl_cons, List.foldl_nil, applyOpt]
+  constructor
+  · intro h
+    have : iv.length ≠ 0 := fun h0 => h (List.eq_nil_of_length_eq_zero h0)
+    simp [this]
+  · simp
+
+/-- mode options do not change the IV and IV options do not change the mode -/
+theorem C19_options_independent (args : Arguments) (iv : List Byte) :
+    (applyOpt args .withCFB).initialVector = args.initialVector ∧
+    (applyOpt args .withCBC).initialVector = args.initialVector ∧
+    (applyOpt args (.withInitialVector iv)).cipherType = args.cipherType := by
+  refine ⟨rfl, rfl, ?_⟩
+  simp only [applyOpt]; split <;> rfl
+
+/-- a key that is not 16, 24 or 32 bytes long makes NewCipher panic -/
+theorem C19_bad_key_panics (key : List Byte) (opts : List Opt)
+    (hk : ¬(key.length = 16 ∨ key.length = 24 ∨ key.length = 32)) : newCipher key opts = .error .keySize := by
+  simp only [newCipher, hk, if_false]
+
+/-! ### non-vacuity: the hypotheses of the theorems above are satisfiable -/
+
+-- a block permutation with a left inverse (the identity; AES is another one)
+example : (∀ b : List Byte, b.length = 16 → (id b : List Byte).length = 16) ∧
+    (∀ b : List Byte, b.length = 16 → id (id b : List Byte) = b) := ⟨fun _ h => h, fun _ _ => rfl⟩
+-- a valid slice with spare capacity in the middle of an array, and a 16-byte IV
+example : Slice.valid [[9, 9, 1, 2, 3, 7, 7, 7, 8]] ⟨0, 2, 3, 6⟩ := ⟨by decide, by decide, by decide⟩
+example : commonIV.length = 16 := by decide
+-- a concrete round trip through the model (E = D = id): 3-byte plaintext, one 16-byte ciphertext block
+example :
+    (match cbcEncrypt id commonIV [[9, 9, 1, 2, 3, 7, 7, 7, 8]] ⟨0, 2, 3, 6⟩ with
+      | .ok (st1, ct) =>
+        (match cbcDecrypt id commonIV st1 ct with
+          | .ok (st2, out) => (out.bytes st2, ct.len)
+          | .error _ => ([], 0))
+      | .error _ => ([], 0)) = ([1, 2, 3], 16) := by decide
